@@ -257,9 +257,13 @@ def build(ctx):
         for noargs in (True, False):
             add("modes", {"ops": [{"op": "G", "noargs": noargs, "modes": modes, "npmodes": npm}, {"op": "H", "noargs": not noargs, "modes": modes[::-1], "npmodes": npm}]})
     # several arrays mixed with keywords: hoisting index arithmetic and A0, A1.. numbering
-    tt = [(None, None), (("g", []), None), (None, ("t", [("z", 1)])), (("g", [("s", label["7"])]), ("tdm", []))]
+    # the full grid {absent, name only, with options} x {absent, name only, with options} for target x type (the array
+    # declarations are placed after the metadata lines, whichever of them exist)
+    tg_ = [None, ("g", []), ("g", [("s", label["7"])])]
+    ty_ = [None, ("tdm", []), ("t", [("z", 1)])]
+    tt = [(a_, b_) for a_ in tg_ for b_ in ty_]
     arr_sel = arrays
-    for (A, B), (tg, ty) in itertools.product(itertools.product(arr_sel, repeat=2), tt):
+    for (A, B), (tg, ty) in itertools.product(list(itertools.product(arr_sel, repeat=2))[::2] + [(a_, a_) for a_ in arr_sel[::3]], tt):
         spec = {"ops": [{"op": "G", "args": [A, 1], "kwargs": [("U", B), ("s", label["'with space'"])], "modes": [0]}, {"op": "H", "args": [B], "modes": [1]}, {"op": "K", "noargs": True, "modes": [0, 1]}]}
         if tg:
             spec["target"] = tg
